@@ -26,6 +26,7 @@ def cancelling_flags(ctx):
     if cancel is None:
         return out
     ps, it = ctx.paths(cancel, base, depth=0)
+    bad = set()
     for p in ps:
         st = [(e.d["target"][2], e.d["value"]) for e in p.evs("store") if q.self_field(e.d["target"])]
         names = set(n for n, v in st)
@@ -33,6 +34,11 @@ def cancelling_flags(ctx):
             vals = [v for m, v in st if m == n]
             if vals and vals[0] == ("const", True) and vals[-1] == ("const", False):
                 out.add(n)
+            elif ("const", True) in vals:
+                # some exit of cancel() (return, veto or exception) leaves the flag set: it is not a reliable
+                # 'cancel in progress' marker
+                bad.add(n)
+    out -= bad
     # the flag must not be written anywhere else (except its initialisation to False)
     for fi in ctx.prog.functions.values():
         if fi is cancel or fi.parent is not None:
